@@ -39,6 +39,7 @@ CODES = {
     33: "the canary stayed paused although canary-unpaused is true and it is not failed",
     34: "status.state / status.reason do not reflect the paused, frozen or canary situation",
     35: "a paused canary without the canary-valid annotation was promoted",
+    36: "the canary-valid annotation names the (not failed) new replica set but it was not made the active one",
     40: "activeReplicaSet switched to the new replica set although the promotion rule does not allow it (validate names another replica set, ...)",
     41: "activeReplicaSet set to a replica set that is neither the recorded active nor the one matching spec.template",
     42: "a canary marked failed was promoted",
